@@ -7,14 +7,10 @@ import CoapVerif.Lemmas.StreamWs
      boundary on) and `frRes` (from a frame boundary on);
    * the abstraction of a reader state: `Abs` = the phase and the bytes consumed but not yet delivered, and the
      invariant `WsInv mode st a` ("the reader state `st` is what S's incremental parser holds at `a`");
-   * `hsClean`: the handshake sub-domain on which M_ws and S_ws agree (see below).
 
-   Sub-domain excluded in the handshake phase (both are properties of the header block only):
-   (1) a NUL byte inside a complete handshake line: the C code uses strchr/strcasecmp on the line buffer, the
-       model's `lfIdx` stops at a NUL like strchr, S's `lfIndex` does not;
-   (2) an accepted header line that starts with its separator (blank / tab, `sepFirst`): libcoap's
-       `coap_ws_split_rd_header` writes a NUL at index 0, and the line is then taken for the empty line that
-       ends the header block (design/C05.md "observations not acted on"); S treats it as an ordinary line. -/
+   The handshake phase needs no restriction on the bytes: a NUL byte inside a line is part of S (D20: the line has
+   no end; the model's strchr stops at it in the same way, `lfIdx_eq`), and a header line that starts with its
+   separator is refused by the per-line checks since the `fix:` commit (the former `hsClean` sub-domain is gone). -/
 namespace Coap
 open Coap.M Coap.M.Ws Coap.Spec.Stream Coap.Spec.Stream.Ws
 
@@ -37,30 +33,6 @@ theorem run_eq_hsRes {σ} (V : Validator σ) (mode : Mode) (bs : Bytes) : run V 
 
 /-- `ms` delivered, then `r` -/
 def Res.pre (ms : List Msg) (r : Res) : Res := ⟨ms ++ r.msgs, r.up, r.closed⟩
-
-/-! ### the handshake sub-domain on which the model and the specification agree -/
-
-/-- the model's "separator first" test (`lineLoop`): the per-line check has put a NUL at `http_hdr[0]` -/
-def sepFirst (mode : Mode) (s : Seen) (line : Bytes) : Bool :=
-  (s.first || mode = .client) && (match splitHdr line with | some (0, _, _) => true | _ => false)
-
-/-- every complete handshake line S looks at (up to and including the empty line) is free of NUL bytes, and
-no accepted line starts with its separator -/
-def hsClean (mode : Mode) (accept : Bytes) : Nat → Seen → Bytes → Bool
-  | 0, _, _ => true
-  | f + 1, s, bs =>
-    match lfIndex bs with
-    | none => true
-    | some i =>
-      if i > maxLine then true else
-      (bs.take i).all (fun b => b != 0) &&
-      (if stripCr (bs.take i) = [] then true else
-        match lineOk mode accept s (stripCr (bs.take i)) with
-        | none => true
-        | some s' => !sepFirst mode s (stripCr (bs.take i)) && hsClean mode accept f s' (bs.drop (i + 1)))
-
-def hsCleanOf (mode : Mode) (accept : Bytes) (s : Seen) (bs : Bytes) : Bool :=
-  hsClean mode accept (bs.length + 1) s bs
 
 /-! ### reader state ↔ parser position -/
 
@@ -91,9 +63,10 @@ def DataInv (mode : Mode) (st : St) (p : Bytes) : Prop :=
     st.rxData = (if D = [] then none else some D) ∧
     (b0 :: b1 :: r) <+: st.rdHeader
 
-/-- the reader inside the handshake: the current line so far is `http_hdr[0 .. http_ofs)` -/
+/-- the reader inside the handshake: the current line so far is `http_hdr[0 .. http_ofs)`; it has no line end
+yet (no LF, or a NUL byte in front of it) -/
 def HsInv (st : St) : Prop :=
-  st.up = false ∧ (∀ b ∈ st.httpHdr, b ≠ 10) ∧ st.httpHdr.length < httpCap - 1 ∧
+  st.up = false ∧ lfIndex st.httpHdr = none ∧ st.httpHdr.length < httpCap - 1 ∧
   st.rdHeader = [] ∧ st.allHdrIn = false ∧ st.rxData = none
 
 /-- phase and bytes consumed but not yet delivered -/
@@ -111,9 +84,5 @@ def WsInv (mode : Mode) (st : St) : Abs → Prop
 def specFrom (mode : Mode) (accept : Bytes) : Abs → Bytes → Res
   | .hs s l, Y => hsRes (validator mode accept) mode s (l ++ Y)
   | .fr p, Y => frRes mode (p ++ Y)
-
-def Clean (mode : Mode) (accept : Bytes) : Abs → Bytes → Prop
-  | .hs s l, Y => hsCleanOf mode accept s (l ++ Y) = true
-  | .fr _, _ => True
 
 end Coap
